@@ -8,3 +8,6 @@ def run(ck):
     ob = encoding.analyse35(ck)
     ob.emit(ck, "C35")
     ck.floor("CMP", "encoding/obligations", len([1 for it in ob.items if "C35" in it[0]]), 10, "C35 obligations evaluated")
+    if ck.tier == "thorough":
+        from . import witnesses
+        witnesses.run(ck, ["transfer_proof_json_no_deserialize"])
